@@ -192,7 +192,8 @@ def run_suite(suite, tier, seed, key):
             judged.append(dict(c=j["c"], tag=cases[j["c"] - 1]["tag"], form=j["form"], kind=j["kind"], bad=bad,
                                explained=explained, first_diff=j.get("first_diff"),
                                rec=dict(c=j["c"], form=j["form"], prog=cases[j["c"] - 1]["prog"], off=cases[j["c"] - 1]["off"],
-                                        cfg=cases[j["c"] - 1]["cfg"], steps=j["steps"], expected=j.get("expected"))))
+                                        cfg=cases[j["c"] - 1]["cfg"], steps=j["steps"], expected=j.get("expected"), unit_ns=j.get("unit_ns"),
+                                        tag=cases[j["c"] - 1]["tag"])))
     r = dict(suite=suite, tier=tier, seed=seed, cases=len(cases), tlc=tlc, behaviours=nbeh,
              model_bad=dict(model_bad), replay={k: rep[k] for k in ("behaviours", "steps", "mismatches", "with_fault", "per_form")},
              sample=rep.get("sample"), judged=judged, wall_s=round(time.time() - t0, 1), cached=False,
